@@ -84,7 +84,9 @@ class SEQ(T):
         return SeqV(sh, arrs if len(arrs) > 1 else arrs[0], z3.Const(fresh_name(name + ".len"), z3.IntSort()))
 
     def shape(self):
-        raise Unsupported("nested sequences as elements are not modelled")
+        from .values import SeqShape
+
+        return SeqShape(self.elem.shape())
 
 
 class SET(T):
